@@ -55,10 +55,11 @@ def run(rep, tier, seed):
         "static planning side is EnumeratedStaticPlanning"]
     cs = cases(tier, seed)
     budgets = {"delay": 2 if tier == "thorough" else 1}
-    if tier != "thorough":
+    if True:
+        every = 10 if tier != "thorough" else 2
         cs2 = []
         for k, (sc, c) in enumerate(cs):
-            if k % 10:
+            if k % every:
                 c = dict(c)
                 c.pop("delay")
             cs2.append((sc, c))
